@@ -54,7 +54,10 @@ def build(cfg):
     if cfg.get("swap_extras") and len(extras) >= 2:
         extras = extras[::-1]
     evs = (extras + bars) if cfg.get("extras_first") else (bars + extras)
-    fold = {"whole": (G[0], G[-1]), "late": (G[2], G[-1]), "middle": (G[1], G[2])}[cfg["fold"]]
+    half = (G[1] - G[0]) / 3
+    fold = {"whole": (G[0], G[-1]), "late": (G[2], G[-1]), "middle": (G[1], G[2]),
+            # fold boundaries that fall strictly between two timesteps
+            "endmid": (G[0], G[2] + half), "startmid": (G[0] + half, G[-1]), "bothmid": (G[0] + half, G[2] + half)}[cfg["fold"]]
     markov = cfg["hist"] == "markov"
     warm = {"all": None, "markov": None, "warm1": G[1] - G[0], "warm2": G[2] - G[0]}[cfg["hist"]]
     timesteps = list(G)
@@ -253,7 +256,7 @@ def run_config(cfg):
     return msgs, hash(tuple(outcome))
 
 
-CROSSED = [("L", [0, 30]), ("fold", ["whole", "late", "middle"]), ("hist", ["all", "markov", "warm1", "warm2"])]
+CROSSED = [("L", [0, 30]), ("fold", ["whole", "late", "middle", "endmid", "startmid", "bothmid"]), ("hist", ["all", "markov", "warm1", "warm2"])]
 DEVIATE = [("grid", ["min", "day", "mixed"]), ("ncon", [2, 1]), ("eplen", [None, 1, 2]), ("start", [0, 1, 2]),
            ("unsorted", [False, True]), ("extras_first", [False, True]), ("swap_extras", [False, True])]
 
@@ -313,7 +316,7 @@ def run(tier, **kw):
     rep.set("deviation_bound_completed", 2 if tier == "quick" else 3)
     rep.set("exhaustive", True)
     rep.set("rule", "one evaluation = one configuration run for two consecutive episodes on a real TradingEnv; enumerated: latency {0,30s} x "
-                    "fold {whole, late, middle} x history {all, markov, warm-up 1 gap, warm-up 2 gaps} fully crossed, times every assignment of "
+                    "fold {whole, late, middle, and three windows whose boundaries fall between two timesteps} x history {all, markov, warm-up 1 gap, warm-up 2 gaps} fully crossed, times every assignment of "
                     "{grid shape, 1 or 2 contracts, episode length/start, unsorted+duplicated grid input, insertion order} and multisets of extra "
                     "events (quote or custom event at each of ~26 region/boundary positions) with at most `deviation_bound_completed` deviations "
                     "in total; distinct_nontrivial = distinct delivery logs (kind, event, executions-so-far) among configurations with a non-default setting or an extra event")
